@@ -85,6 +85,17 @@ fn classify(min: &[String]) -> &'static str {
         let term = term.trim_end_matches("))").to_string() + "))";
         if !min[..d].iter().any(|c| c.contains(min[d].trim_start_matches("(delete ").strip_suffix(')').unwrap_or(""))) { let _ = term; return "c11-delete-absent-row"; } }
     if min.iter().any(|c| c.starts_with("(subsume")) && del.is_none() && min.len() <= 3 { return "c11-subsume-absent-row"; }
+    // a subsume of a row that is not there at that moment (never inserted, or deleted before and not re-inserted)
+    for (p, c) in min.iter().enumerate() {
+        if let Some(rest) = c.strip_prefix("(subsume ") { let term = &rest[..rest.len() - 1];
+            let mut present = false;
+            for e in &min[..p] { if e == term { present = true; } if *e == format!("(delete {term})") { present = false; } }
+            if !present { return "c11-subsume-absent-row"; } }
+    }
+    // a deleted term is mentioned (hence re-created) by a later command: the plain engine mints a fresh e-class,
+    // the encodings find the old one again through their term table
+    if let Some(d) = del { let term = min[d].trim_start_matches("(delete ").to_string(); let term = &term[..term.len() - 1];
+        if min[d + 1..].iter().any(|c| !c.starts_with("(delete") && c.contains(term)) { return "c11-reinsert-after-delete"; } }
     "c11-divergence"
 }
 
@@ -92,11 +103,12 @@ pub fn run(ctx: &Ctx) -> Report {
     let mut rep = Report::new("C11", "generated programs (constructors, lattice functions, relations, rules, rewrites incl. :subsume, top-level subsume and delete, unions, runs) accepted by program_supports_proofs, run plain / term-encoding / proofs with a probe block (sizes, extraction costs, checks) after every command; main stream: delete only before any union/run and subsume only of present rows; edge stream: delete after unions and subsume of absent rows (the two known divergences); plus print-reparse-run of the encoded program. non-trivial = program uses union + run + (delete or subsume) (distinct by program)");
     let mut rng = Rng::new(ctx.seed ^ 0xC11);
     // corpus: the two known divergences
-    let corpus: [(&str, Vec<&str>); 4] = [
+    let corpus: [(&str, Vec<&str>); 5] = [
         ("(sort E)\n(constructor A () E)\n(constructor G (E) E)\n", vec!["(G (A))", "(subsume (G (A)))", "(delete (G (A)))", "(print-size G)"]),
         ("(sort E)\n(constructor A () E)\n(constructor G (E) E)\n", vec!["(delete (G (A)))", "(G (A))", "(print-size G)"]),
         ("(datatype T (A) (B) (F T))\n", vec!["(F (A))", "(F (B))", "(union (A) (B))", "(delete (F (B)))", "(print-size F)"]),
         ("(datatype T (A) (B) (G T T))\n", vec!["(subsume (G (A) (A)))", "(print-size G)"]),
+        ("(sort E)\n(constructor B () E)\n(constructor G (E) E)\n(constructor F (E E) E)\n", vec!["(F (B) (G (B)))", "(G (B))", "(delete (G (B)))", "(F (B) (G (B)))", "(print-size F)"]),
     ];
     for (hdr, cmds) in corpus.iter() {
         let cmds: Vec<String> = cmds.iter().map(|s| s.to_string()).collect();
